@@ -271,19 +271,22 @@ where
             let cache = ZstCache::<M>::new(mc);
             let p = cache.alloc_static(mc, DZ::<A>([]));
             cached = cache.is_cached(p);
-            if cached != expect {
-                errs.push(format!("{name}: shared pointer returned: {cached}, expected {expect}"));
+            // the shared pointer may only be handed out if the alignment fits; whether a type with a
+            // destructor is served from the cache at all is the library's choice, but the value that was
+            // handed over must stay alive as long as the pointer does
+            if cached && !expect {
+                errs.push(format!("{name}: shared pointer returned although the alignment exceeds the cache's"));
             }
             let now = DZ_DROPS.with(|c| c.get());
-            if now != cached as u64 {
-                errs.push(format!("{name}: {now} destructor runs right after alloc_static (cached = {cached})"));
+            if now != 0 {
+                errs.push(format!("{name}: {now} destructor runs right after alloc_static (cached = {cached}), while the returned pointer is alive"));
             }
             root.p = Lock::new(Some(Gc::erase(p)));
         });
         arena.finish_cycle();
         arena.finish_cycle();
         let now = DZ_DROPS.with(|c| c.get());
-        if now != cached as u64 {
+        if now != 0 {
             errs.push(format!("{name}: {now} destructor runs while the pointer is rooted"));
         }
         arena.mutate_root(|_, root| root.p = Lock::new(None));
